@@ -295,7 +295,7 @@ pub fn run(ctx: &Ctx, st: &mut Stats) {
         }
     }
     st.mark_exhaustive("dt/constructor-grid", "12 boundary days x 7 hours x 6 minutes x 6 seconds x 6 microsecond values incl. u32 extremes");
-    let n = ctx.tier.pick(1_000, 2_000_000, 40_000_000);
+    let n = ctx.tier.pick(1_000, 2_000_000, ctx.big(40_000_000, 300_000_000));
     ctx.par(st, "random/values-and-pairs", false, 0, n, |st, _, rng| {
         let c = match rng.below(6) {
             0 => C::ab(K::DtOrd, rng.range_i64(-DT_LIM, DT_LIM), rng.range_i64(-DT_LIM, DT_LIM)),
